@@ -326,6 +326,7 @@ func c19CheckMatrix(c *Case, m *c19Matrix, tag string) {
 		return
 	}
 	c19Coverage(c, m, x, base, tag)
+	c19CheckNeighbours(c, m, base)
 perms:
 	for pi, d := range c19Perms {
 		pm := c19Permute(m, c.R, d)
@@ -622,6 +623,9 @@ func runC19(r *Run) {
 		}
 		if r.Counter("permuted_writings") < int64(r.Q(2000, 100000))*5 {
 			r.Inconclusive("fewer permuted writings were compared than planned")
+		}
+		if r.Counter("neighbour_job_writings_with_reports") < 100 {
+			r.Inconclusive("fewer than 100 writings with a neighbouring job and at least one matrix report were compared")
 		}
 	}
 }
